@@ -164,31 +164,51 @@ Fixpoint consumed_from (c : cfg) (st : tstate) (items : list read_item) : nat :=
   end.
 Definition consumed (c : cfg) (items : list read_item) : nat := consumed_from c tstate0 items.
 
-(** Harness tie only: the dial outcome as the environment decides it. Given the
-    set [live] of addresses that accept connections, rewrite the [a_dial]
-    answer of every read to what the environment would answer at that point
-    (the theorems quantify over all answers, so they cover every [live]). *)
-Definition dial_answer (live : list bytes) (st : tstate) (data : bytes) : bool :=
-  match fstep (fs st) data with
-  | FPacket ty _ body =>
-      if ty =? PKT_TYPE_CHANNEL_CREATE then
-        let '(server, port) := channel_request body in
-        existsb (bytes_eqb (join_host_port server port)) live
-      else true
-  | _ => true
-  end.
-
-Fixpoint resolve_dials (live : list bytes) (c : cfg) (st : tstate) (items : list read_item)
-  : list read_item :=
+(** Environment answers as functions of what is asked. [resolve f] rewrites
+    the answers of every read by [f], which sees the tunnel state before the
+    read and the bytes read (the theorems quantify over all answers, so they
+    cover every such environment). *)
+Fixpoint resolve (f : tstate -> bytes -> answers -> answers) (c : cfg) (st : tstate)
+         (items : list read_item) : list read_item :=
   match items with
   | [] => []
   | RErr :: rest => RErr :: rest
   | RData d a :: rest =>
-      let a' := {| a_cookie := a_cookie a; a_name := a_name a; a_host := a_host a;
-                   a_dial := dial_answer live st d |} in
+      let a' := f st d a in
       let '(st', _, fin) := tstep c st (RData d a') in
-      RData d a' :: (if fin then rest else resolve_dials live c st' rest)
+      RData d a' :: (if fin then rest else resolve f c st' rest)
   end.
+
+(** The address a channel-create packet completed by this read asks for. *)
+Definition requested_host (st : tstate) (data : bytes) : option bytes :=
+  match fstep (fs st) data with
+  | FPacket ty _ body =>
+      if ty =? PKT_TYPE_CHANNEL_CREATE then
+        let '(server, port) := channel_request body in Some (join_host_port server port)
+      else None
+  | _ => None
+  end.
+
+(** The dial outcome as the environment decides it: [live] is the set of
+    addresses that accept connections. *)
+Definition dial_answer (live : list bytes) (st : tstate) (data : bytes) : bool :=
+  match requested_host st data with
+  | Some h => existsb (bytes_eqb h) live
+  | None => true
+  end.
+
+Definition with_dial (live : list bytes) (st : tstate) (d : bytes) (a : answers) : answers :=
+  {| a_cookie := a_cookie a; a_name := a_name a; a_host := a_host a; a_dial := dial_answer live st d |}.
+
+(** The host-policy answer as a function [pol] of the requested address. *)
+Definition with_policy (pol : bytes -> bool) (st : tstate) (d : bytes) (a : answers) : answers :=
+  {| a_cookie := a_cookie a; a_name := a_name a;
+     a_host := match requested_host st d with Some h => pol h | None => a_host a end;
+     a_dial := a_dial a |}.
+
+Definition resolve_dials (live : list bytes) := resolve (with_dial live).
+Definition resolve_policy_dials (pol : bytes -> bool) (live : list bytes) :=
+  resolve (fun st d a => with_dial live st d (with_policy pol st d a)).
 
 (** Final state reached (for statements about phases). *)
 Fixpoint final_from (c : cfg) (st : tstate) (items : list read_item) : tstate * bool :=
